@@ -338,6 +338,45 @@ def run_irq(case):
         elif before != after:
             viol.append(V('C07:irq:instruction-executed', f'k={k}: state changed between the request and the stop',
                           text=text, k=k, cfg=cfg))
+    # the same request while the machine is stopped *between two run() calls* (before the first one, at a breakpoint): the way
+    # the debugger and the runner drive the CPU.  The next run() must stop with the keyboard-interrupt error at once.
+    for k in sorted({0, 1, n // 3, n // 2, max(0, n - 1)} & set(range(n + 1))):
+        m, impl = rt.make_machine(mod, script)
+        cpu = m.cpu
+        out = io.StringIO()
+        count = [0]
+        orig_tick = cpu.tick
+
+        def counting_tick(_o=orig_tick, _c=count):
+            _c[0] += 1
+            return _o()
+        cpu.tick = counting_tick
+        bp = (lambda cpu_, _c=count, _k=k: _c[0] >= _k)
+        try:
+            with contextlib.redirect_stdout(out):
+                if k > 0:
+                    cpu.add_breakpoint(bp)
+                    finished = cpu.run()
+                    cpu.del_breakpoint(bp)
+                    if finished or cpu.halted:
+                        continue
+                if cpu.trap_target is not None and not case.get('disarmed_after_output'):
+                    continue
+                if case.get('disarmed_after_output') and not any(e[0] == 'out' for e in impl.h):
+                    continue
+                before, _d = state_digest(cpu, impl)
+                os.kill(os.getpid(), signal.SIGINT)
+                cpu.run()
+                after, _d = state_digest(cpu, impl)
+        except Exception as e:  # noqa: BLE001
+            viol.append(V(f'C07:irq:crash:{rt.crash_sig(e)}', f'run()-driven, k={k}: {type(e).__name__}: {e}', text=text, k=k))
+            continue
+        st['irq_points_between_runs'] = st.get('irq_points_between_runs', 0) + 1
+        if not cpu.halted or cpu.halt_reason.name != 'TRAP' or cpu.last_trap is None or cpu.last_trap.name != 'KEYBOARD_INTERRUPT':
+            viol.append(V('C07:irq:not-stopped:between-runs', f'request while stopped after {k} instructions, then run(): halted={cpu.halted} '
+                          f'reason={cpu.halt_reason} last_trap={cpu.last_trap}; {len(impl.h)} device events', text=text, k=k, cfg=cfg))
+        elif before != after:
+            viol.append(V('C07:irq:instruction-executed:between-runs', f'k={k}: state changed between the request and the stop', text=text, k=k, cfg=cfg))
     sample = {'program': text[:300], 'ticks': n, 'interrupt_points': len(ks)}
     return {'viol': viol, 'stats': st, 'shape': shapes, 'nontrivial': bool(shapes), 'sample': sample}
 
